@@ -14,7 +14,7 @@ ap.add_argument("--of", type=int, default=1)
 ap.add_argument("--max-checks", type=int, default=2)
 a = ap.parse_args()
 rows = [json.loads(l) for l in open(a.inp)]
-surv = [r for r in rows if r["outcome"] == "SURVIVED"]
+surv = [r for r in rows if r.get("outcome2", r["outcome"]) == "SURVIVED"]      # (a later pass reads the output of the one before)
 done = set()
 if os.path.exists(a.out):
     done = {json.loads(l)["id"] for l in open(a.out)}
@@ -32,7 +32,7 @@ for i, r in enumerate(surv):
         if m and not src[n].startswith(("if", "for", "while", "switch", "#", "//", "}")):
             fn = m.group(1)
             break
-    ran = [c[0] for c in r.get("checks", [])]
+    ran = [c[0] for c in r.get("checks", [])] + [c[0] for c in r.get("checks2", [])]
     prefer = []
     if fn == "matches_response":
         prefer = ["C14"]
@@ -44,7 +44,7 @@ for i, r in enumerate(surv):
             cand.append(generic)
     cand = [p for p in cand if p not in ran][: a.max_checks]
     patch = os.path.join(os.path.dirname(a.inp), "patches", r["id"] + ".diff")
-    rec = dict(r, function=fn, checks2=[], outcome2="SURVIVED")
+    rec = dict(r, function=fn, checks2=list(r.get("checks2", [])), outcome2="SURVIVED")
     if fn in ("send", "recv_response"):
         rec["outcome2"] = "outside (sending / receiving on a live interface)"
         cand = []
